@@ -4,7 +4,7 @@ workloads + (where a model prediction exists) kernel-evaluated comparison with t
 import collections, json, os, re
 from . import common as C
 
-FAMILIES = {"C01": ["conc"], "C02": ["nest"], "C09": ["values"], "C10": ["errors"], "C11": ["closures"],
+FAMILIES = {"C01": ["conc", "closures"], "C02": ["nest"], "C09": ["values"], "C10": ["errors"], "C11": ["closures"],
             "C13": ["hub"], "C17": ["wire"]}
 
 
@@ -385,7 +385,7 @@ def check(res, tier, seed):
                           dict(kind="sys", output=out[-3000:], last=recs[-1] if recs else None))
         mon = MONITORS[pid]
         for r in recs:
-            vs = mon(r)
+            vs = (mon_c11 if (pid == "C01" and r["family"] == "closures") else mon)(r)
             if vs:
                 hits += 1
                 res.violation("sys-monitor:" + re.sub(r"\d+", "N", vs[0])[:50], "implementation violates %s: %s" % (pid, vs[0]),
@@ -419,4 +419,5 @@ def check(res, tier, seed):
                         "transports deliver frames unchanged, at most once (reordering and delay allowed)"]
 
 
-MODEL_CHECKS = {}
+from . import wiretags, convcheck
+MODEL_CHECKS = {"C17": wiretags.check, "C11": convcheck.check}
